@@ -116,6 +116,57 @@ theorem listing_independent_of_iteration_order (σ : Store) (r : Nat) (perm : Li
     sortKeys (perm.map (·.1)) = sortKeys ((σ.objs[r]?.getD []).map (·.1)) :=
   keys_stable _ _ (hp.map _)
 
+/-! ## the model keeps an object's properties in insertion order, a Go map has no order: nothing observable depends on it -/
+
+/-- looking a key up in a duplicate-free property list does not depend on the order of the list -/
+theorem lookup_perm {α : Type} {ps qs : List (Name × α)} (hp : ps.Perm qs) (hnd : (ps.map (·.1)).Nodup) (k : Name) :
+    ps.lookup k = qs.lookup k := by
+  induction hp with
+  | nil => rfl
+  | cons x _ ih =>
+    obtain ⟨k', v'⟩ := x
+    simp only [List.map_cons, List.nodup_cons] at hnd
+    simp only [List.lookup]
+    cases k == k' <;> simp [ih hnd.2]
+  | swap x y l =>
+    obtain ⟨k1, v1⟩ := x; obtain ⟨k2, v2⟩ := y
+    simp only [List.map_cons, List.nodup_cons, List.mem_cons, not_or] at hnd
+    simp only [List.lookup]
+    cases h1 : k == k1 <;> cases h2 : k == k2 <;> simp
+    -- both keys equal `k`: excluded, the list is duplicate-free
+    have e1 : k = k1 := by simpa using h1
+    have e2 : k = k2 := by simpa using h2
+    exact absurd (e2.symm.trans e1) hnd.1.1
+  | trans h1 _ ih1 ih2 =>
+    rw [ih1 hnd, ih2 ((h1.map _).nodup_iff.mp hnd)]
+
+/-- the printed properties depend on the property list only through look-ups -/
+theorem showProps_congr (σ : Store) : ∀ (f : Nat) (ps qs : List (Name × Val)) (ks : List Name),
+    (∀ k, ps.lookup k = qs.lookup k) → showProps σ f ps ks = showProps σ f qs ks := by
+  intro f
+  induction f with
+  | zero => intro ps qs ks _; simp [showProps]
+  | succ f ih =>
+    intro ps qs ks h
+    cases ks with
+    | nil => simp [showProps]
+    | cons k ks => rw [showProps, showProps, h k, ih ps qs ks h]
+
+/-- **what an object shows, lists and yields on a read is the same for every order its properties
+    could be stored in**: for two duplicate-free property lists that are permutations of each other,
+    every read, the key listing, the value listing and the printed text coincide -/
+theorem object_observations_independent_of_storage_order (σ : Store) (f : Nat) (ps qs : List (Name × Val))
+    (hp : ps.Perm qs) (hnd : (ps.map (·.1)).Nodup) :
+    (∀ k, ps.lookup k = qs.lookup k) ∧
+    sortKeys (ps.map (·.1)) = sortKeys (qs.map (·.1)) ∧
+    (sortKeys (ps.map (·.1))).map (fun k => (ps.lookup k).getD .nil) = (sortKeys (qs.map (·.1))).map (fun k => (qs.lookup k).getD .nil) ∧
+    showProps σ f ps (sortKeys (ps.map (·.1))) = showProps σ f qs (sortKeys (qs.map (·.1))) := by
+  have hl := lookup_perm hp hnd
+  have hk := keys_stable _ _ (hp.map (·.1))
+  refine ⟨hl, hk, ?_, ?_⟩
+  · rw [hk]; exact List.map_congr_left (fun k _ => by rw [hl k])
+  · rw [hk]; exact showProps_congr σ f ps qs _ hl
+
 theorem fold_keeps_head {α : Type} (k : Name) (v : α) :
     ∀ (ps acc : List (Name × α)), k ∉ ps.map (·.1) →
       ∃ rest, ps.foldl (fun acc p => upsert p.1 p.2 acc) ((k, v) :: acc) = (k, v) :: rest
